@@ -21,6 +21,10 @@ rule("C03.b", "per row letter the constraint uses the documented relation (U <=,
               "right-hand side are subset by the same row mask", floor=8)
 rule("C01.c", "nodal rows (letter N) are translated as equalities by every interface", floor=2)
 rule("C03.c", "variable bounds reach the solver in the right direction; objective sign and optimisation direction agree", floor=4)
+rule("C18.e", "sign of the reported nodal price: the report negates the dual of the nodal rows written as `A_N x == b_N` in a maximisation of "
+              "-c'x. The four signs belong together - orientation of the equality (cvxpy's dual belongs to lhs - rhs), sign of c in the objective, "
+              "direction of optimisation, sign in the report: their product is what it is on the confirmed tree; a single flip reports the negative "
+              "of the marginal value", floor=1)
 rule("C03.k", "rows of a mapping that come from assets without boolean variables carry NaN in the 'bool' column (frames are concatenated): "
               "the flags are read by comparison with True (or after fillna(False)) - never through a bare cast astype(bool) / bool(), for which NaN "
               "is True: continuous variables would be declared boolean (restricted to {0, 1}) and success reported for a point that is not optimal",
@@ -256,7 +260,7 @@ def _stmts_in(body):
     return list(au.walk_stmts(body))
 
 
-@analysis("translation", ["C03.a", "C03.b", "C01.c", "C03.c", "C03.d", "C03.e", "C03.i", "C03.j", "C14.m", "C18.d", "C03.k"])
+@analysis("translation", ["C03.a", "C03.b", "C01.c", "C03.c", "C03.d", "C03.e", "C03.i", "C03.j", "C14.m", "C18.d", "C03.k", "C18.e"])
 def run(ctx):
     p = ctx.p
     opt = p.cls("OptimProblem").methods.get("optimize")
@@ -622,6 +626,44 @@ def run(ctx):
                "values divided by that factor - with a penalty price of 2e7 in the portfolio every nodal price is too small by a factor of 20, an "
                "injection raises the optimum by far more than price x d" % (", ".join(sorted(factors)), au.short(p.enclosing_stmt(dual_reads[0][1]), 60)),
                node=st)
+
+    # ================================================================== C18.e sign chain of the nodal price
+    s_con = s_obj = s_dir = s_rep = s_con_n = None
+    for st in _stmts_in(opt.body):
+        for n in au.walk_own(st):
+            if isinstance(n, ast.Compare) and len(n.ops) == 1 and isinstance(n.ops[0], ast.Eq):
+                lmm = any(isinstance(x, ast.BinOp) and isinstance(x.op, ast.MatMult) for x in au.walk_local(n.left))
+                rmm = any(isinstance(x, ast.BinOp) and isinstance(x.op, ast.MatMult) for x in au.walk_local(n.comparators[0]))
+                if lmm != rmm:
+                    # the block of the nodal letter: the nearest preceding `<name> = "<letter>"`; without that idiom all equality blocks have to agree
+                    letters = [(a.lineno, au.const_str(a.value)) for a in _stmts_in(opt.body) if isinstance(a, ast.Assign) and au.const_str(a.value) in ROW_LETTERS
+                               and a.lineno <= n.lineno]
+                    letter = max(letters)[1] if letters else None
+                    sc = 1 if lmm else -1
+                    if letter == "N":
+                        s_con_n = sc
+                    elif letter is None:
+                        s_con = sc if s_con in (None, sc) else 0
+            if isinstance(n, ast.Call) and au.method_name(n) in ("Maximize", "Minimize"):
+                s_dir = 1 if au.method_name(n) == "Maximize" else -1
+    for st in objs:
+        s_obj = au.sign_of(st.value)
+    io_fn2 = p.fn_opt("io.extract_output")
+    if io_fn2 is not None:
+        for st in au.walk_stmts(io_fn2.body):
+            if isinstance(st, ast.Assign) and any(isinstance(x, ast.Subscript) and au.const_str(x.slice) == "N" and au.terminal(x.value) == "duals" for x in au.walk_local(st.value)):
+                s_rep = au.sign_of(st.value)
+    s_con = s_con_n if s_con_n is not None else s_con
+    if None in (s_con, s_obj, s_dir, s_rep) or s_con == 0:
+        ctx.ob("C18.e", opt, "sign chain of the nodal price", None,
+               "not all of: orientation of the equality rows, objective over self.c, direction, report of duals['N'] were found (%s)" % ((s_con, s_obj, s_dir, s_rep),))
+    else:
+        ctx.ob("C18.e", opt, "sign chain of the nodal price", s_con * s_obj * s_dir * s_rep == 1,
+               "equality rows are written with A x on the %s, the objective is %sc'x, %s, and the report takes %sduals['N']: one of the four was "
+               "flipped without the others - the price reported for a node is the negative of the marginal value of an injection there (re-optimising "
+               "with +d at a node whose reported price is 20 changes the value by -20 d)" % (
+                   "left" if s_con > 0 else "right", "-" if s_obj < 0 else "+", "maximised" if s_dir > 0 else "minimised", "-" if s_rep < 0 else "+"),
+               node=opt.node, ok_detail="A x == b, maximise -c'x, report -dual")
 
     # ================================================================== C14.m the empty problem
     creates = [(st, n) for st in _stmts_in(opt.body) for n in au.walk_own(st) if isinstance(n, ast.Call) and au.method_name(n) in ("Variable", "CreateSolver")]
